@@ -182,10 +182,10 @@ C_ATTR = [b"symbolName=foo", b"symbolName=", b"symbolName=a,b", b"bogus", b"//",
 def gen_pcomment(rng):
     if rng.random() < 0.1:
         return rng.choice([b"//", b"/**/", b"// ", b"/* */", b"//x", b"// cppcheck-suppress", b"//cppcheck-suppress "])
-    c = rng.choice([b"//", b"/*", b"///", b"/**"])
+    c = rng.choice([b"//", b"//", b"//", b"/*", b"/*", b"///", b"/**"])
     c += rng.choice([b" ", b"", b"  ", b"\t", b" \t "])
     c += rng.choice(C_KW[:6]) if rng.random() < 0.8 else rng.choice(C_KW)
-    c += rng.choice([b" ", b" ", b"  ", b"\t", b""])
+    c += rng.choice([b" ", b" ", b" ", b"  ", b"\t", b""])
     c += rng.choice([b"nullPointer", b"a", b"*", b"nullPointer", b"uninitvar", b"", b"id;x", b"a//b", b"[a,b]"])
     for _ in range(rng.randint(0, 3)):
         c += rng.choice([b" ", b"  ", b"\t", b""]) + rng.choice(C_ATTR)
